@@ -549,6 +549,13 @@ impl Match {
                         length
                     )));
                 }
+                // largest value the variable-length field can carry: offset 32768 + 30 bits
+                if (*length as u64) - (MIN_FAR2_LONG_LENGTH as u64) >= 32768 + (1u64 << 30) {
+                    return Err(ZiporaError::invalid_data(format!(
+                        "Far3Long length {} exceeds encodable maximum",
+                        length
+                    )));
+                }
             }
         }
 
